@@ -7,6 +7,12 @@ V = os.path.dirname(os.path.dirname(os.path.abspath(__file__)))
 
 CHECKS = {
     # id: (category, technique, level text, level_note, design_ref)
+    'C01': ('exploration', 'runtime monitoring: every NEWSA request and IKE keyring of both daemons compared online with an independent RFC 7296 key schedule fed from the wire and the tapped DH private values; mirror-image comparison of the two model SADs after every completed negotiation',
+            'Configuration pairs with differing preference orders (all ENCR key lengths, INTEG, PRF, DH groups, ESP/AH, modes, IPv4/IPv6, PSK/RSA, PFS on/off, COOKIE / INVALID_KE retries) run long histories of successful negotiations (initial, new CHILD, CHILD rekey, IKE rekey, again on the successor) sequentially and as crossing exchanges; each installed SA must carry exactly the direction keys, algorithms, addresses, mode and selectors the reference derives, each keyring must equal the reference, and both kernels must hold equal records. Held on the executions observed.',
+            'honest peers, lossless delivery; lifetimes excluded from the mirror comparison (per-side jitter by design); reference = hashlib/hmac/python-int DH', '2/C01'),
+    'C04': ('exploration', 'runtime differential monitoring against an independent RFC 7296 / RFC 3526 / RFC 5903 implementation: direct calls (prf+, sizes, constants, DH objects incl. leading-zero secrets, key schedule) and online comparison of every derivation in simulated histories',
+            'prf+ for all output lengths (quick: dense sample), transform sizes, the five MODP primes recomputed from the RFC 3526 formula, ECP public values / secrets by integer scalar multiplication, real DH objects fed peer values whose secret has a leading zero octet, the IKE key schedule (initial and rekey with old SK_d and old PRF) and KEYMAT for every PRF x INTEG x key length with 16..256-octet nonces, and end-to-end every keyring / NEWSA key in histories covering every suite and group.',
+            'primality of the constants is out of reach (only equality with the published definitions); trusted base hashlib/hmac/python ints', '2/C04'),
     'C06': ('exploration', 'runtime monitoring of Message.parse: exception-class oracle + executed-line budget (sys.monitoring LINE events) over structure-aware hostile corpora',
             'Every parse call is watched by a line-event counter that aborts it when it exceeds a linear budget (so a non-terminating parse is detected in-process) and its outcome must be a return, InvalidSyntax or UnsupportedCriticalPayload. Corpora: random bytes, all truncations, byte mutations, a grid over every length/next/more/count/critical field at every nesting level incl. two-field combinations, and the same applied to the plaintext of protected messages re-sealed with the right keys (bad padding, non-block ciphertext, IV only).',
             'line budget constants fixed a priori (600 + 20/byte + 5/declared DELETE SPI); two cipher suites; messages up to a few hundred bytes plus random ones up to 4096', '2/C06'),
